@@ -12,7 +12,7 @@
      after a time-out happens at the next token visit, inside the same master cycle: the master is only faster);
    - devices are compared up to the Global_Control command they recorded (`gceq`; slave_step does not read it);
    - `master_runs_joint_system` (the bridge) and `recovery_master`.  Any number of occupied slots, any storage layout,
-     distinct addresses, start at a cycle boundary. *)
+     distinct addresses; from any cycle position of the master (a start inside a cycle costs one more cycle). *)
 From PB Require Import Peripheral DpMaster DpRun DpOracle Slave DpStepProofs C09Proofs C14Proofs C14History DpHistory.
 From PB Require Import C07Abs C07Joint C07Proofs.
 From PB Require Import DpOracleSound.
@@ -328,16 +328,14 @@ Record BI (m : dpm) (sl : list slave) (K : nat) : Prop := mkBI {
   bi_ccomp : Ccomp m;
   bi_run : forall i p0 k s0, slot m0 i = Some p0 -> find_slave sl0 (pe_addr p0) = Some k -> nth_error sl0 k = Some s0 ->
       exists p s n sx, slot m i = Some p /\ nth_error sl k = Some s /\
-        reaches pa op n (p0, s0) (p, sx) /\ gceq sx s /\ (K + vbit m i <= n)%nat }.
+        reaches pa op n (p0, s0) (p, sx) /\ gceq sx s /\ (K + vbit m i <= n + vbit m0 i)%nat }.
 
-Lemma bi_init : dm_op m0 = op -> Ccomp m0 -> pos_rem m0 = occupied m0 -> BI m0 sl0 0.
+Lemma bi_init : dm_op m0 = op -> Ccomp m0 -> BI m0 sl0 0.
 Proof.
-  intros Ho Hc Hstart. constructor; auto.
+  intros Ho Hc. constructor; auto.
   - intros i p Hp. exists p. auto.
   - intros i p0 k s0 Hp Hk Hs. exists p0, s0, 0%nat, s0. split; [exact Hp|]. split; [exact Hs|].
-    split; [exists []; reflexivity|]. split; [apply gceq_refl|]. unfold vbit.
-    destruct (in_dec Nat.eq_dec i (pos_rem m0)) as [_|Hn]; [cbn; lia|].
-    exfalso. apply Hn. rewrite Hstart. apply occupied_in_slot. exists p0. exact Hp.
+    split; [exists []; reflexivity|]. split; [apply gceq_refl|]. lia.
 Qed.
 
 Lemma vbit_in : forall m i, In i (pos_rem m) -> vbit m i = 0%nat.
@@ -607,22 +605,23 @@ Proof.
     pose proof (IH _ _ _ _ _ _ B1 Hr) as B2. rewrite <- Nat.add_assoc in B2. exact B2.
 Qed.
 
-(* THE BRIDGE: in every run of the fault-free bus from a cycle boundary, the peripheral of every slot and its device
-   are, after K completed cycles of the DP master, exactly where n >= K cycles of the single-peripheral joint system
-   take them (the device up to the Global_Control command it recorded) *)
+(* THE BRIDGE: in every run of the fault-free bus, the peripheral of every slot and its device are, after K completed
+   cycles of the DP master, exactly where n cycles of the single-peripheral joint system take them (the device up to
+   the Global_Control command it recorded), with n >= K for a slot that still had its turn in the cycle in which the
+   run started (every slot, if the run starts at a cycle boundary) and n + 1 >= K otherwise *)
 Theorem master_runs_joint_system : forall pa bufsize m0 sl0,
   dm_op m0 <> OpStop -> 0 <= p_address pa <= 126 -> (255 <= bufsize)%nat -> addr_inj m0 ->
-  Ccomp m0 -> pos_rem m0 = occupied m0 ->
+  Ccomp m0 ->
   (forall i p0, slot m0 i = Some p0 ->
      exists k s0, find_slave sl0 (pe_addr p0) = Some k /\ nth_error sl0 k = Some s0 /\ jinv pa p0 s0) ->
   forall sched m sl K, master_run pa bufsize (m0, sl0) sched = Ok ((m, sl), K) ->
   forall i p0 k s0, slot m0 i = Some p0 -> find_slave sl0 (pe_addr p0) = Some k -> nth_error sl0 k = Some s0 ->
   exists p s n sx evs,
     slot m i = Some p /\ find_slave sl (pe_addr p) = Some k /\ nth_error sl k = Some s /\
-    joint_run pa (dm_op m0) n (p0, s0) = Ok ((p, sx), evs) /\ gceq sx s /\ (K <= n)%nat.
+    joint_run pa (dm_op m0) n (p0, s0) = Ok ((p, sx), evs) /\ gceq sx s /\ (K <= n + vbit m0 i)%nat.
 Proof.
-  intros pa bufsize m0 sl0 Hop Hown Hbuf Hinj Hcc Hstart Hinit sched m sl K Hrun i p0 k s0 Hp0 Hk Hs0.
-  pose proof (bi_init pa bufsize (dm_op m0) m0 sl0 Hbuf eq_refl Hcc Hstart) as B0.
+  intros pa bufsize m0 sl0 Hop Hown Hbuf Hinj Hcc Hinit sched m sl K Hrun i p0 k s0 Hp0 Hk Hs0.
+  pose proof (bi_init pa bufsize (dm_op m0) m0 sl0 Hbuf eq_refl Hcc) as B0.
   pose proof (run_bi pa bufsize (dm_op m0) m0 sl0 Hop Hown Hbuf Hinj Hinit sched m0 sl0 0%nat m sl K B0 Hrun) as B.
   cbn [Nat.add] in B.
   destruct (bi_run _ _ _ _ _ _ _ B i p0 k s0 Hp0 Hk Hs0) as (p & s & n & sx & Hp & Hs & (evs & Hr) & Hg & Hb).
@@ -638,60 +637,68 @@ Proof. intros a b (g & ->). reflexivity. Qed.
 (* C07_recovery_master *)
 Theorem recovery_master : forall pa bufsize m0 sl0,
   dm_op m0 <> OpStop -> 0 <= p_address pa <= 126 -> (255 <= bufsize)%nat -> addr_inj m0 ->
-  Ccomp m0 -> pos_rem m0 = occupied m0 ->
+  Ccomp m0 ->
   (forall i p0, slot m0 i = Some p0 ->
      exists k s0, find_slave sl0 (pe_addr p0) = Some k /\ nth_error sl0 k = Some s0 /\ jinv pa p0 s0 /\
                   ~ f15_class pa (dm_op m0) (p0, s0)) ->
   forall sched m sl K, master_run pa bufsize (m0, sl0) sched = Ok ((m, sl), K) ->
-  (c07_cycles (p_max_retry pa) <= K)%nat ->
+  (c07_cycles (p_max_retry pa) + (if list_eq_dec Nat.eq_dec (pos_rem m0) (occupied m0) then 0 else 1) <= K)%nat ->
   forall i p, slot m i = Some p ->
   exists k s, find_slave sl (pe_addr p) = Some k /\ nth_error sl k = Some s /\
               pe_state p = PsDataExchange /\ sl_st s = SlDataExch.
 Proof.
-  intros pa bufsize m0 sl0 Hop Hown Hbuf Hinj Hcc Hstart Hinit sched m sl K Hrun HK i p Hp.
+  intros pa bufsize m0 sl0 Hop Hown Hbuf Hinj Hcc Hinit sched m sl K Hrun HK i p Hp.
   assert (Hinit' : forall i p0, slot m0 i = Some p0 ->
             exists k s0, find_slave sl0 (pe_addr p0) = Some k /\ nth_error sl0 k = Some s0 /\ jinv pa p0 s0).
   { intros j p0 Hp0. destruct (Hinit j p0 Hp0) as (k & s0 & H1 & H2 & H3 & _). exists k, s0. auto. }
   assert (Hocc : exists p0, slot m0 i = Some p0).
-  { pose proof (bi_init pa bufsize (dm_op m0) m0 sl0 Hbuf eq_refl Hcc Hstart) as B0.
+  { pose proof (bi_init pa bufsize (dm_op m0) m0 sl0 Hbuf eq_refl Hcc) as B0.
     pose proof (run_bi pa bufsize (dm_op m0) m0 sl0 Hop Hown Hbuf Hinj Hinit' sched m0 sl0 0%nat m sl K B0 Hrun) as B.
     destruct (bi_addr _ _ _ _ _ _ _ B _ _ Hp) as (p0 & Hp0 & _). exists p0. exact Hp0. }
   destruct Hocc as (p0 & Hp0). destruct (Hinit i p0 Hp0) as (k & s0 & Hk & Hs0 & J & Hnf).
-  destruct (master_runs_joint_system pa bufsize m0 sl0 Hop Hown Hbuf Hinj Hcc Hstart Hinit' sched m sl K Hrun i p0 k s0 Hp0 Hk Hs0)
+  destruct (master_runs_joint_system pa bufsize m0 sl0 Hop Hown Hbuf Hinj Hcc Hinit' sched m sl K Hrun i p0 k s0 Hp0 Hk Hs0)
     as (p' & s & n & sx & evs & Hp' & Hfs & Hs & Hr & Hg & Hn).
   rewrite Hp in Hp'. inversion Hp'; subst p'.
   destruct (recovery pa (dm_op m0) p0 s0 J Hop Hnf) as (k0 & Hk0 & Hall).
-  destruct (Hall n ltac:(lia)) as (st' & evs' & Hr' & (Hd1 & Hd2)). rewrite Hr in Hr'. inversion Hr'; subst st'.
+  assert (Hkn : (k0 <= n)%nat).
+  { destruct (list_eq_dec Nat.eq_dec (pos_rem m0) (occupied m0)) as [E|_].
+    - assert (Hv0 : vbit m0 i = 0%nat) by (apply vbit_in; rewrite E; apply occupied_in_slot; exists p0; exact Hp0). lia.
+    - assert (Hv1 : (vbit m0 i <= 1)%nat) by (unfold vbit; destruct (in_dec Nat.eq_dec i (pos_rem m0)); lia). lia. }
+  destruct (Hall n Hkn) as (st' & evs' & Hr' & (Hd1 & Hd2)). rewrite Hr in Hr'. inversion Hr'; subst st'.
   exists k, s. split; [exact Hfs|]. split; [exact Hs|]. split; [exact Hd1|]. rewrite (gceq_st _ _ Hg). exact Hd2.
 Qed.
 
 (* the same with the explicit condition: no device is in Wait_Cfg while its peripheral is past Chk_Cfg *)
 Theorem recovery_master_explicit : forall pa bufsize m0 sl0,
   dm_op m0 <> OpStop -> 0 <= p_address pa <= 126 -> (255 <= bufsize)%nat -> addr_inj m0 ->
-  Ccomp m0 -> pos_rem m0 = occupied m0 ->
+  Ccomp m0 ->
   (forall i p0, slot m0 i = Some p0 ->
      exists k s0, find_slave sl0 (pe_addr p0) = Some k /\ nth_error sl0 k = Some s0 /\ jinv pa p0 s0 /\
                   ~ f15_suspect (p0, s0)) ->
   forall sched m sl K, master_run pa bufsize (m0, sl0) sched = Ok ((m, sl), K) ->
-  (c07_cycles (p_max_retry pa) <= K)%nat ->
+  (c07_cycles (p_max_retry pa) + (if list_eq_dec Nat.eq_dec (pos_rem m0) (occupied m0) then 0 else 1) <= K)%nat ->
   forall i p, slot m i = Some p ->
   exists k s, find_slave sl (pe_addr p) = Some k /\ nth_error sl k = Some s /\
               pe_state p = PsDataExchange /\ sl_st s = SlDataExch.
 Proof.
-  intros pa bufsize m0 sl0 Hop Hown Hbuf Hinj Hcc Hstart Hinit sched m sl K Hrun HK i p Hp.
+  intros pa bufsize m0 sl0 Hop Hown Hbuf Hinj Hcc Hinit sched m sl K Hrun HK i p Hp.
   assert (Hinit' : forall i p0, slot m0 i = Some p0 ->
             exists k s0, find_slave sl0 (pe_addr p0) = Some k /\ nth_error sl0 k = Some s0 /\ jinv pa p0 s0).
   { intros j p0 Hp0. destruct (Hinit j p0 Hp0) as (k & s0 & H1 & H2 & H3 & _). exists k, s0. auto. }
   assert (Hocc : exists p0, slot m0 i = Some p0).
-  { pose proof (bi_init pa bufsize (dm_op m0) m0 sl0 Hbuf eq_refl Hcc Hstart) as B0.
+  { pose proof (bi_init pa bufsize (dm_op m0) m0 sl0 Hbuf eq_refl Hcc) as B0.
     pose proof (run_bi pa bufsize (dm_op m0) m0 sl0 Hop Hown Hbuf Hinj Hinit' sched m0 sl0 0%nat m sl K B0 Hrun) as B.
     destruct (bi_addr _ _ _ _ _ _ _ B _ _ Hp) as (p0 & Hp0 & _). exists p0. exact Hp0. }
   destruct Hocc as (p0 & Hp0). destruct (Hinit i p0 Hp0) as (k & s0 & Hk & Hs0 & J & Hnf).
-  destruct (master_runs_joint_system pa bufsize m0 sl0 Hop Hown Hbuf Hinj Hcc Hstart Hinit' sched m sl K Hrun i p0 k s0 Hp0 Hk Hs0)
+  destruct (master_runs_joint_system pa bufsize m0 sl0 Hop Hown Hbuf Hinj Hcc Hinit' sched m sl K Hrun i p0 k s0 Hp0 Hk Hs0)
     as (p' & s & n & sx & evs & Hp' & Hfs & Hs & Hr & Hg & Hn).
   rewrite Hp in Hp'. inversion Hp'; subst p'.
   destruct (recovery_explicit pa (dm_op m0) p0 s0 J Hop Hnf) as (k0 & Hk0 & Hall).
-  destruct (Hall n ltac:(lia)) as (st' & evs' & Hr' & (Hd1 & Hd2)). rewrite Hr in Hr'. inversion Hr'; subst st'.
+  assert (Hkn : (k0 <= n)%nat).
+  { destruct (list_eq_dec Nat.eq_dec (pos_rem m0) (occupied m0)) as [E|_].
+    - assert (Hv0 : vbit m0 i = 0%nat) by (apply vbit_in; rewrite E; apply occupied_in_slot; exists p0; exact Hp0). lia.
+    - assert (Hv1 : (vbit m0 i <= 1)%nat) by (unfold vbit; destruct (in_dec Nat.eq_dec i (pos_rem m0)); lia). lia. }
+  destruct (Hall n Hkn) as (st' & evs' & Hr' & (Hd1 & Hd2)). rewrite Hr in Hr'. inversion Hr'; subst st'.
   exists k, s. split; [exact Hfs|]. split; [exact Hs|]. split; [exact Hd1|]. rewrite (gceq_st _ _ Hg). exact Hd2.
 Qed.
 
